@@ -1,0 +1,203 @@
+//! Verification hooks. Compiled only with `RUSTFLAGS="--cfg ragc_verif"`.
+//!
+//! `event()` reports that something happened (queue admission, barrier arrival, a
+//! classification outcome, ...) to a sink installed by a test harness; `perturb()` gives a
+//! harness-installed scheduler the chance to delay the calling thread at a real suspension
+//! point. Both are no-ops until something is installed. Nothing in here influences what the
+//! library computes.
+
+use std::sync::atomic::{AtomicPtr, AtomicU64, Ordering};
+use std::sync::OnceLock;
+
+/// Receives `(kind, args)`. May be called while library locks are held: it must not call back
+/// into the library and must not block on anything a library thread can hold.
+pub type EventSink = fn(kind: u32, args: [u64; 4]);
+/// Called at perturbation points (never while a library lock is held).
+pub type PerturbFn = fn(point: u32);
+
+static SINK: AtomicPtr<()> = AtomicPtr::new(std::ptr::null_mut());
+static PERTURB: AtomicPtr<()> = AtomicPtr::new(std::ptr::null_mut());
+
+pub fn set_sink(f: Option<EventSink>) {
+    let p = match f {
+        Some(f) => f as *mut (),
+        None => std::ptr::null_mut(),
+    };
+    SINK.store(p, Ordering::SeqCst);
+}
+
+pub fn set_perturb(f: Option<PerturbFn>) {
+    let p = match f {
+        Some(f) => f as *mut (),
+        None => std::ptr::null_mut(),
+    };
+    PERTURB.store(p, Ordering::SeqCst);
+}
+
+#[inline]
+pub fn event(kind: u32, args: [u64; 4]) {
+    let p = SINK.load(Ordering::Acquire);
+    if !p.is_null() {
+        // SAFETY: only `set_sink` stores here, and it stores a valid `EventSink`.
+        let f: EventSink = unsafe { std::mem::transmute::<*mut (), EventSink>(p) };
+        f(kind, args);
+    }
+}
+
+#[inline]
+pub fn perturb(point: u32) {
+    let p = PERTURB.load(Ordering::Acquire);
+    if !p.is_null() {
+        // SAFETY: only `set_perturb` stores here, and it stores a valid `PerturbFn`.
+        let f: PerturbFn = unsafe { std::mem::transmute::<*mut (), PerturbFn>(p) };
+        f(point);
+    } else if let Some(cfg) = env_perturb() {
+        builtin_perturb(cfg, point);
+    }
+}
+
+/// Built-in scheduler for processes no harness can reach into (the `ragc` binary):
+/// `RAGC_VERIF_PERTURB=<seed>:<per-mille>` makes every perturbation point yield, spin or sleep
+/// up to 2 ms with the given probability, from a per-thread xorshift stream.
+#[derive(Clone, Copy)]
+struct EnvPerturb {
+    seed: u64,
+    per_mille: u64,
+}
+
+fn env_perturb() -> Option<EnvPerturb> {
+    static CFG: OnceLock<Option<EnvPerturb>> = OnceLock::new();
+    *CFG.get_or_init(|| {
+        let v = std::env::var("RAGC_VERIF_PERTURB").ok()?;
+        let (a, b) = v.split_once(':')?;
+        Some(EnvPerturb {
+            seed: a.parse().ok()?,
+            per_mille: b.parse().ok()?,
+        })
+    })
+}
+
+fn builtin_perturb(cfg: EnvPerturb, point: u32) {
+    static NEXT_THREAD: AtomicU64 = AtomicU64::new(1);
+    thread_local! {
+        static STATE: std::cell::Cell<u64> = const { std::cell::Cell::new(0) };
+    }
+    let r = STATE.with(|s| {
+        let mut x = s.get();
+        if x == 0 {
+            let t = NEXT_THREAD.fetch_add(1, Ordering::Relaxed);
+            x = (cfg.seed ^ t.wrapping_mul(0x9E37_79B9_7F4A_7C15)) | 1;
+        }
+        x ^= x << 13;
+        x ^= x >> 7;
+        x ^= x << 17;
+        s.set(x);
+        x.wrapping_add(point as u64)
+    });
+    if r % 1000 < cfg.per_mille {
+        match (r >> 20) % 3 {
+            0 => std::thread::yield_now(),
+            1 => {
+                for _ in 0..((r >> 24) % 20_000) {
+                    std::hint::spin_loop();
+                }
+            }
+            _ => std::thread::sleep(std::time::Duration::from_micros((r >> 24) % 2000)),
+        }
+    }
+}
+
+/// Event kinds. Argument meaning is given per kind; unused slots are 0.
+pub mod ev {
+    // --- MemoryBoundedQueue, all emitted while the queue mutex is held; args[3] = queue id ---
+    /// item admitted: [size, len_after, bytes_after, q]
+    pub const Q_ADMIT: u32 = 1;
+    /// item handed out: [size, len_after, bytes_after, q]
+    pub const Q_TAKE: u32 = 2;
+    /// push is about to wait for space: [size, len, bytes, q]
+    pub const Q_WAIT_FULL: u32 = 3;
+    /// push woke up (re-evaluates its condition next): [size, len, bytes, q]
+    pub const Q_WAKE_FULL: u32 = 4;
+    /// pull is about to wait for an item: [0, len, bytes, q]
+    pub const Q_WAIT_EMPTY: u32 = 5;
+    /// pull woke up: [0, len, bytes, q]
+    pub const Q_WAKE_EMPTY: u32 = 6;
+    /// close(): [0, len, bytes, q]
+    pub const Q_CLOSE: u32 = 7;
+    /// push / try_push refused because the queue is closed: [size, len, bytes, q]
+    pub const Q_REFUSE: u32 = 8;
+    /// pull reports end of stream (closed and empty): [0, 0, bytes, q]
+    pub const Q_EOS: u32 = 9;
+    /// try_push refused for lack of space: [size, len, bytes, q]
+    pub const Q_WOULD_BLOCK: u32 = 10;
+    /// try_pull found nothing: [0, 0, bytes, q]
+    pub const Q_TRY_EMPTY: u32 = 11;
+
+    // --- compression pipeline: producer side ---
+    /// push() is about to queue a contig: [sequence, size, priority (as u32 bits), 0]
+    pub const P_PUSH_BEGIN: u32 = 20;
+    /// push() queued it: [sequence, size, 0, 0]
+    pub const P_PUSH_END: u32 = 21;
+    /// n sync tokens are about to be queued: [n, reason (1 pack boundary, 2 sync_and_flush, 3 final, 4 sample boundary), priority bits, 0]
+    pub const P_TOKENS: u32 = 22;
+    /// drain()/sync_and_flush() starts polling for an empty queue: [which (1 drain, 2 sync), 0,0,0]
+    pub const P_POLL_BEGIN: u32 = 23;
+    pub const P_POLL_END: u32 = 24;
+    /// finalize(): [phase (1 entered, 2 queue closed, 3 all workers joined, 4 archive closed), 0,0,0]
+    pub const P_FINALIZE: u32 = 25;
+    /// finalize() is about to join worker i: [i,0,0,0]
+    pub const P_JOIN: u32 = 26;
+
+    // --- compression pipeline: workers ---
+    /// worker pulled an item: [worker, is_token, sequence, cost]
+    pub const W_PULL: u32 = 30;
+    /// worker is about to wait at a barrier: [worker, round (per worker, from 1), phase 1..4, 0]
+    pub const W_BARRIER_ARRIVE: u32 = 31;
+    /// worker passed the barrier: [worker, round, phase, 0]
+    pub const W_BARRIER_LEAVE: u32 = 32;
+    /// worker leaves its loop (queue closed and empty): [worker, contigs, rounds, 0]
+    pub const W_EXIT: u32 = 33;
+    /// worker buffered the segments of one contig: [worker, sequence, n_segments, 0]
+    pub const W_SEGMENTED: u32 = 34;
+
+    // --- classification at the barrier (worker 0) ---
+    /// [outcome, group, len, has_code_above_3]; outcome: 1 known group, 2 new group, 3 split in two,
+    /// 4 assigned to left group, 5 assigned to right group, 6 orphan (no k-mers, raw group)
+    pub const C_CLASSIFY: u32 = 40;
+    /// one-k-mer (terminator) lookup: [case (1 front only, 2 back only), found (0/1), 0, 0]
+    pub const C_ONE_KMER: u32 = 41;
+    /// a split half / assigned segment was re-oriented: [len, has_code_above_3, 0, 0]
+    pub const C_REORIENT: u32 = 42;
+    /// fallback-minimizer lookup used: [found (0/1), k, 0, 0]
+    pub const C_FALLBACK: u32 = 43;
+
+    // --- packing (phase 3) ---
+    /// reference written: [group, len, stored_raw (0/1), marker]
+    pub const K_REF: u32 = 50;
+    /// full pack emitted: [group, entries, is_lz (0/1), stored_raw (0/1)]
+    pub const K_PACK: u32 = 51;
+    /// delta equal to one already pending in the pack: [group, reused_id, 0, 0]
+    pub const K_DEDUP: u32 = 52;
+    /// empty delta (segment equals the reference): [group, 0, 0, 0]
+    pub const K_SAME_AS_REF: u32 = 53;
+    /// an LZ-encoded segment contains symbol code 30: [group, 0, 0, 0]
+    pub const K_CODE30: u32 = 54;
+    /// partial pack written at finalize: [group, entries, is_lz, stored_raw]
+    pub const K_FINAL_PACK: u32 = 55;
+
+    // --- places where unchecked arithmetic used to wrap (for the build-profile differential) ---
+    /// [site, 0,0,0]; site: 1 LZ estimate ran past the end, 2 pack-boundary tokens queued,
+    /// 3 fallback scan with k = 32, 4 footer length rejected
+    pub const X_SITE: u32 = 60;
+}
+
+/// Perturbation points.
+pub mod pt {
+    pub const AFTER_PULL: u32 = 1;
+    pub const BEFORE_RAW_PUSH: u32 = 2;
+    pub const BEFORE_BARRIER: u32 = 3;
+    pub const CLAIM_LOOP: u32 = 4;
+    pub const BETWEEN_TOKENS: u32 = 5;
+    pub const BEFORE_PUSH: u32 = 6;
+    pub const POLL: u32 = 7;
+}
